@@ -44,6 +44,9 @@ pub struct Cfg {
     /// set the toggles in the same update message as a fee change (as an operator would through the factory)
     #[serde(default)]
     pub combined: bool,
+    /// which fee schedule the pools and the vault are created with (see `fee3v`)
+    #[serde(default)]
+    pub fee_variant: u8,
 }
 
 #[derive(Serialize, Deserialize, Clone, Debug, PartialEq)]
@@ -116,8 +119,16 @@ pub fn n_cases() -> u64 {
     4 * 8 * 2
 }
 
-fn fee3() -> [Fee; 3] {
-    [Fee { share: Decimal::from_str("0.001").unwrap() }, Fee { share: Decimal::from_str("0.002").unwrap() }, Fee { share: Decimal::zero() }]
+/// fee schedules: the usual one, and valid ones in which the swap / flash-loan fee, the protocol fee or
+/// all fees are exactly zero (a switch must not depend on a fee being charged)
+fn fee3v(variant: u8) -> [Fee; 3] {
+    let d = |s: &str| Fee { share: Decimal::from_str(s).unwrap() };
+    match variant % 4 {
+        0 => [d("0.001"), d("0.002"), Fee { share: Decimal::zero() }],
+        1 => [d("0.001"), Fee { share: Decimal::zero() }, Fee { share: Decimal::zero() }],
+        2 => [Fee { share: Decimal::zero() }, d("0.002"), Fee { share: Decimal::zero() }],
+        _ => [Fee { share: Decimal::zero() }, Fee { share: Decimal::zero() }, Fee { share: Decimal::zero() }],
+    }
 }
 
 impl Toggle {
@@ -199,7 +210,7 @@ impl Toggle {
         let d = bits & 1 != 0;
         let w = bits & 2 != 0;
         let s = bits & 4 != 0;
-        let f = fee3();
+        let f = fee3v(self.cfg.fee_variant);
         let comb = self.cfg.combined;
         let msg = match self.cfg.target {
             Target::PairCp | Target::PairStable => wasm_exec(&self.pool_factory, &factory::ExecuteMsg::UpdatePairConfig { pair_addr: self.pair.clone(), owner: None, fee_collector_addr: if comb { Some(COLLECTOR.into()) } else { None }, pool_fees: if comb { Some(pair::PoolFee { protocol_fee: f[0].clone(), swap_fee: f[1].clone(), burn_fee: f[2].clone() }) } else { None }, feature_toggle: Some(pair::FeatureToggle { withdrawals_enabled: w, deposits_enabled: d, swaps_enabled: s }) }, vec![]),
@@ -270,7 +281,7 @@ impl Scenario for Toggle {
         let amount = rng.range128(200_000, 5_000_000_000);
         let partial_order = if rng.chance(1, 2) { Some(rng.below(6) as u8) } else { None };
         let combined = rng.chance(1, 2);
-        Cfg { target, bits: ((i / 2) % 8) as u8, funded: i % 2 == 1, amount, case_index: i, partial_order, combined }
+        Cfg { target, bits: ((i / 2) % 8) as u8, funded: i % 2 == 1, amount, case_index: i, partial_order, combined, fee_variant: if rng.chance(1, 2) { 0 } else { rng.below(4) as u8 } }
     }
 
     fn max_steps(_cfg: &Cfg) -> usize {
@@ -299,7 +310,7 @@ impl Scenario for Toggle {
         for d in ["uaaa", "uccc"] {
             must_exec(&mut app, OWNER, &pool_factory, &factory::ExecuteMsg::AddNativeTokenDecimals { denom: d.into(), decimals: 6 }, vec![coin(1, d)]);
         }
-        let f = fee3();
+        let f = fee3v(cfg.fee_variant);
         let pair_type = if cfg.target == Target::PairStable { PairType::StableSwap { amp: 100 } } else { PairType::ConstantProduct };
         must_exec(&mut app, OWNER, &pool_factory, &factory::ExecuteMsg::CreatePair { asset_infos: [a_native.clone(), a_token.clone()], pool_fees: pair::PoolFee { protocol_fee: f[0].clone(), swap_fee: f[1].clone(), burn_fee: f[2].clone() }, pair_type, token_factory_lp: false }, vec![]);
         must_exec(&mut app, OWNER, &pool_factory, &factory::ExecuteMsg::CreateTrio { asset_infos: [a_native.clone(), a_token.clone(), c_native.clone()], pool_fees: trio::PoolFee { protocol_fee: f[0].clone(), swap_fee: f[1].clone(), burn_fee: f[2].clone() }, amp_factor: 100, token_factory_lp: false }, vec![]);
@@ -410,7 +421,7 @@ impl Scenario for Toggle {
                         ctx.fail("C17", "toggle_update", "flags_not_stored", None, format!("flags {:?} after setting {:?}", self.flags(), want));
                     }
                     // an unrelated configuration update must leave the flags alone
-                    let f = fee3();
+                    let f = fee3v(self.cfg.fee_variant);
                     let msg = match self.cfg.target {
                         Target::PairCp | Target::PairStable => wasm_exec(&self.pool_factory, &factory::ExecuteMsg::UpdatePairConfig { pair_addr: self.pair.clone(), owner: None, fee_collector_addr: Some(COLLECTOR.into()), pool_fees: Some(pair::PoolFee { protocol_fee: f[0].clone(), swap_fee: f[1].clone(), burn_fee: f[2].clone() }), feature_toggle: None }, vec![]),
                         Target::Trio => wasm_exec(&self.pool_factory, &factory::ExecuteMsg::UpdateTrioConfig { trio_addr: self.trio.clone(), owner: None, fee_collector_addr: Some(COLLECTOR.into()), pool_fees: Some(trio::PoolFee { protocol_fee: f[0].clone(), swap_fee: f[1].clone(), burn_fee: f[2].clone() }), feature_toggle: None, amp_factor: None }, vec![]),
